@@ -264,11 +264,13 @@ ClassOfDefs(c) == IF \E i \in DOMAIN c.defs : DefClass(c.defs[i]) = "constraint"
                   ELSE IF \E i \in DOMAIN c.defs : DefClass(c.defs[i]) = "excluded" THEN "excluded"
                   ELSE "ok"
 
+(* family F16 (DirLines.tla): the verdict of the reader of directive lines on the case's text *)
+DirFlags(c) == IF "dcls" \notin DOMAIN c \/ c.dcls = "ok" THEN {} ELSE IF c.dcls = "bad" THEN {"baddirective"} ELSE {"excluded"}
 Init == /\ \E i \in 1..NCases : Selected(i) /\ cs = CaseAt(Family, i)
         /\ stack = <<Frame(Tks(cs.inv))>>
         /\ ctr = 0 /\ steps = 0
-        /\ flags = IF ClassOfDefs(cs) = "ok" THEN {} ELSE {ClassOfDefs(cs)}
-        /\ status = IF ClassOfDefs(cs) = "ok" THEN "run" ELSE "stop"
+        /\ flags = (IF ClassOfDefs(cs) = "ok" THEN {} ELSE {ClassOfDefs(cs)}) \cup DirFlags(cs)
+        /\ status = IF ClassOfDefs(cs) = "ok" /\ DirFlags(cs) = {} THEN "run" ELSE "stop"
         /\ last = [act |-> "init", name |-> "", hs |-> {}]
 
 (* `res` replaces the item t (a macro name or a whole invocation; t has the fields sp, der, tv) in front of
@@ -382,12 +384,13 @@ ExpandFunc ==
   /\ last' = [act |-> "subst", name |-> Top.call.name, hs |-> Top.call.hs]
   /\ Step /\ UNCHANGED <<cs, ctr, status>>
 
-ClassOf(fl) == IF fl \cap {"constraint", "argerr", "unterminated", "undef"} # {} THEN "diag"
+ClassOf(fl) == IF fl \cap {"constraint", "argerr", "unterminated", "undef", "baddirective"} # {} THEN "diag"
                ELSE IF "excluded" \in fl THEN "excluded"
                ELSE "ok"
 
 Result == SpellT(stack[1].out)
 Record(st, fl) == [fam |-> cs.fam, id |-> cs.id, tag |-> cs.tag, defs |-> cs.defs, inv |-> cs.inv,
+                   text |-> IF "text" \in DOMAIN cs THEN cs.text ELSE "",
                    out |-> Result, sp |-> [i \in 1..Len(stack[1].out) |-> stack[1].out[i].sp],
                    flags |-> SetToSeq(fl), class |-> ClassOf(fl), steps |-> steps, ctr |-> ctr]
 EmitRec(fl) == IF Emit THEN CSVWrite("%1$s", <<ToJson(Record("done", fl))>>, IOEnv.OUT) ELSE TRUE
